@@ -158,3 +158,33 @@ int tbl_write_path(const hist_t* h, const char* path, carquet_status_t* st, cons
     if (*st != CARQUET_OK) { *where = "close"; return 1; }
     return 0;
 }
+
+/* ---- general executor with abort point ------------------------------------------------ */
+typedef struct { carquet_writer_t* w; const hist_t* h; int stop_after; tbl_result* r; } exec_t;
+static bool step(exec_t* e, const char* where, carquet_status_t (*fn)(exec_t*, int, int, int), int a, int b, int c) {
+    if (e->stop_after >= 0 && e->r->nops == e->stop_after) { carquet_writer_abort(e->w); e->w = NULL; e->r->aborted = true; return false; }
+    carquet_status_t st = fn(e, a, b, c); e->r->nops++;
+    if (st != CARQUET_OK && e->r->status == CARQUET_OK) { e->r->status = st; e->r->where = where; e->r->failed_op = e->r->nops - 1; }
+    return true;
+}
+static carquet_status_t op_write(exec_t* e, int c, int a, int b) { return write_rows(e->w, e->h, c, a, b); }
+static carquet_status_t op_newrg(exec_t* e, int a, int b, int c) { (void)a; (void)b; (void)c; return carquet_writer_new_row_group(e->w); }
+void tbl_exec(const hist_t* h, FILE* f, const char* path, int stop_after, tbl_result* r) {
+    memset(r, 0, sizeof *r); r->where = ""; r->failed_op = -1;
+    carquet_schema_t* s = tbl_schema(h); if (!s) { r->status = CARQUET_ERROR_OUT_OF_MEMORY; r->where = "schema"; return; }
+    carquet_writer_options_t o; set_opts(h, &o); carquet_error_t err = CARQUET_ERROR_INIT;
+    carquet_writer_t* w = f ? carquet_writer_create_file(f, s, &o, &err) : carquet_writer_create(path, s, &o, &err);
+    if (!w) { r->status = err.code ? err.code : CARQUET_ERROR_INTERNAL; r->where = "create"; carquet_schema_free(s); return; }
+    r->created = true; exec_t e = { w, h, stop_after, r }; int lo = 0; bool alive = true;
+    for (int g = 0; g < h->nrg && alive; g++) {
+        int hi = lo + h->rg_rows[g];
+        if (g > 0) alive = step(&e, "new_row_group", op_newrg, 0, 0, 0);
+        for (int c = 0; c < h->ncols && alive; c++) { int a = lo; for (int rr = lo; rr < hi && alive; rr++) if (rr == hi - 1 || ((h->comp[c] >> rr) & 1)) { alive = step(&e, "write_batch", op_write, c, a, rr + 1); a = rr + 1; } }
+        lo = hi;
+    }
+    if (alive) {
+        if (stop_after >= 0 && r->nops == stop_after) { carquet_writer_abort(e.w); r->aborted = true; }
+        else { carquet_status_t st = carquet_writer_close(e.w); r->nops++; if (st != CARQUET_OK && r->status == CARQUET_OK) { r->status = st; r->where = "close"; r->failed_op = r->nops - 1; } }
+    }
+    carquet_schema_free(s);
+}
